@@ -42,6 +42,27 @@ def judge(prog, ctx, util, rule_prefix=""):
         ctx.touch(s.fn)
         inst = "%s %s[%s] <- %s" % (s.fn.name, s.arr.name, s.arr.size_mac or s.arr.size, s.copier)
         inst = "%s @%s" % (inst, s.node.where.split(":", 1)[1]) if False else inst
+        if s.verdict == "os-limit-truncation":
+            # a name cut at PATH_MAX is harmless while it is a directory prefix that gets longer still (the final name is refused by the
+            # system); a cut name that is handed to the system AS IT IS names another file, which may exist
+            OPEN = ("read_file_with_callback", "read_file", "fopen", "open", "openat", "lstat", "stat", "access", "scandir", "opendir", "realpath",
+                    "econf_readFile", "econf_readFileWithCallback")
+            direct = [c9 for c9 in s.fn.calls(OPEN) if any(render(a9) == s.arr.name for a9 in c9.call_args())]
+            guarded = False
+            if direct and s.node.k == "CallExpr" and s.node.j.get("callee") == "snprintf":
+                # unless the result of snprintf() is compared with the size (truncation noticed)
+                up9 = s.node.up()
+                rv9 = render(up9.children[0]) if up9 is not None and up9.k == "BinaryOperator" and up9.j.get("op") == "=" else (
+                    up9.j["decls"][0]["name"] if up9 is not None and up9.k == "DeclStmt" else None)
+                if rv9:
+                    cfg9 = s.fn.cfg
+                    guarded = any(cfg9.edge_lit(b9, i9) is not None and cfg9.edge_lit(b9, i9).kind == "lt" and rv9 in cfg9.edge_lit(b9, i9).atom
+                                  for (b9, i9, s9) in cfg9.edges())
+            if direct and not guarded:
+                ctx.fail(rule_prefix + "B1", inst, s.node.where,
+                         "truncation: %s - and the cut name is handed to %s() as it is: a name one byte too long is not refused but read as the name of "
+                         "ANOTHER file (its first PATH_MAX-1 bytes)" % (s.why, direct[0].j.get("callee")), key=s.fullkey + ":cut-name-opened")
+                continue
         if s.verdict in ("ok", "exempt", "os-limit-truncation"):
             ctx.ok(rule_prefix + "B1", inst, s.node.where, "%s: %s" % (s.verdict, s.why))
         elif s.verdict in ("overflow", "truncation"):
